@@ -41,7 +41,7 @@ BOOLS = ['wait_to_parse', 'parse_qq', 'clean_qq', 'sec_colon_required', 'sec_col
 DOMAIN = {b: [True, False] for b in BOOLS}
 DOMAIN.update({'default_ns': ['n', 's'], 'default_ew': ['e', 'w'],
                'layout': ['TRS_desc', 'desc_STR', 'S_desc_TR', 'TR_desc_S', 'copy_all'],
-               'qq_depth': [1, 2, 3], 'qq_depth_min': [1, 2, 3], 'qq_depth_max': [1, 2, 3]})
+               'qq_depth': [0, 1, 2, 3], 'qq_depth_min': [0, 1, 2, 3], 'qq_depth_max': [0, 1, 2, 3]})    # 0 = boundary value
 ORDER = ['default_ns', 'default_ew', 'layout', 'wait_to_parse', 'parse_qq', 'clean_qq', 'sec_colon_required', 'sec_colon_cautious',
          'suppress_lot_divs', 'ocr_scrub', 'segment', 'qq_depth', 'qq_depth_min', 'qq_depth_max', 'break_halves', 'sec_within']
 _p = None
@@ -466,6 +466,57 @@ FAMILY_TEXTS = {'plss': ['T154N-R97W Sec 14: N/2NE/4', 'T154N-R97W Sec 14: N/2NE
                 'tract': ['N/2NE/4', 'N/2NE/4NE/4, ALL']}
 
 
+WAIT_TEXTS = ['T154N-R97W Sec 14: NE/4', 'NE/4 of Section 14, T154N-R97W']
+
+
+def wait_case(acc, text, how):
+    """wait_to_parse has two channels in PLSSDesc: the config (string / object, at creation) and the init keyword.  Same effect
+    through both; the keyword wins over the config string; unset means the MasterConfig default (parse at creation)."""
+    P = _p
+    key = f"wait|{how}|{text}"
+    case = {'k': 'wait', 'how': how, 'text': text}
+    routes = {
+        # name: (constructor kwargs, waits?)
+        'config_str': ({'config': 'wait_to_parse'}, True),
+        'config_str_true': ({'config': 'wait_to_parse.True,parse_qq'}, True),
+        'config_obj': ({'config': 'OBJ:wait_to_parse'}, True),
+        'config_from_kwargs': ({'config': 'KW:wait_to_parse'}, True),
+        'config_false': ({'config': 'wait_to_parse.False'}, False),
+        'keyword': ({'wait_to_parse': True}, True),
+        'keyword_false': ({'wait_to_parse': False}, False),
+        'unset': ({}, False),
+        'keyword_true_over_config_false': ({'config': 'wait_to_parse.False', 'wait_to_parse': True}, True),
+        'keyword_false_over_config_true': ({'config': 'wait_to_parse', 'wait_to_parse': False}, False),
+    }
+    kw, waits = routes[how]
+    kw = dict(kw)
+    if str(kw.get('config', '')).startswith('OBJ:'):
+        kw['config'] = P.Config(kw['config'][4:])
+    elif str(kw.get('config', '')).startswith('KW:'):
+        kw['config'] = P.Config.from_kwargs(wait_to_parse=True)
+    try:
+        d = P.PLSSDesc(text, **kw)
+        got = (len(d.tracts) == 0, bool(d.wait_to_parse))
+        d.parse()
+        after = len(d.tracts)
+    except Exception as ex:  # noqa
+        acc.case(key, 'EXC')
+        acc.violation('conflict_exception', f"C13:conflict_exception:wait:{how}", case, got=f"{type(ex).__name__}: {ex}")
+        return
+    acc.case(key, got)
+    acc.states += 1
+    acc.transitions += 1
+    if got != (waits, waits) or after != 1:
+        acc.violation('channel_differs', f"C13:channel_differs:plss:wait_to_parse:{how}", case, got=got, exp=(waits, waits),
+                      note='(no tracts at creation, .wait_to_parse) through this route; the init keyword wait_to_parse=True is the reference')
+    else:
+        acc.guard('wait_ok')
+
+
+WAIT_ROUTES = ['config_str', 'config_str_true', 'config_obj', 'config_from_kwargs', 'config_false', 'keyword', 'keyword_false', 'unset',
+               'keyword_true_over_config_false', 'keyword_false_over_config_true']
+
+
 # ------------------------------------------------------------------ driver
 def units(tier):
     maxk = 3 if tier == 'quick' else 4
@@ -479,6 +530,7 @@ def units(tier):
     for s in TW:
         us.append({'k': 'matrix', 'kind': 'tract', 's': s})
     us.append({'k': 'family'})
+    us.append({'k': 'wait'})
     return us
 
 
@@ -501,6 +553,10 @@ def run_unit(unit, tier):
     elif unit['k'] == 'unknown':
         for nm in unknown_names():
             unknown_case(acc, nm)
+    elif unit['k'] == 'wait':
+        for text in WAIT_TEXTS:
+            for how in WAIT_ROUTES:
+                wait_case(acc, text, how)
     elif unit['k'] == 'family':
         for kind in ('plss', 'tract'):
             for text in FAMILY_TEXTS[kind]:
@@ -544,6 +600,8 @@ def replay(case):
     elif case['k'] == 'matrix':
         matrix_case(acc, case['kind'], case['setting'], case['value'], case['text'])
         return [v for v in acc.viol if v['case']['channel'] == case['channel']]
+    elif case['k'] == 'wait':
+        wait_case(acc, case['text'], case['how'])
     elif case['k'] == 'colonfamily':
         colon_family_case(acc, case['cfg'], case['kw'], case['text'])
     elif case['k'] == 'family':
